@@ -25,17 +25,24 @@ def check_c15(case, ctx):
     for lab in gen.game_labels(case):
         ctx.label(lab)
     outcome = {k: v for k, v in base.items() if k in ("ranks", "scores")}
+    # games with sigma = 0 players are valid only under a tau > 0: sub-comparisons whose tau in force is 0 are not made for them
+    sigma0 = bool(case["meta"].get("sigma0"))
+    ok_model_tau = not sigma0 or cfg["tau"] >= 1e-6 * cfg["beta"]
+    if sigma0:
+        ctx.label("sigma0-team")
 
     # omitted argument == the model's own setting, passed explicitly
-    plain = rate_values(cfg, teams, outcome, ctx)
-    explicit = rate_values(cfg, teams, dict(outcome, tau=cfg["tau"], limit_sigma=cfg["limit_sigma"]), ctx)
-    _cmp(plain, explicit, "omitted-vs-explicit" + (":tau0" if cfg["tau"] == 0 else ""), "rate(g) vs rate(g, tau=model.tau, limit_sigma=model.limit_sigma)")
+    plain = None
+    if ok_model_tau:
+        plain = rate_values(cfg, teams, outcome, ctx)
+        explicit = rate_values(cfg, teams, dict(outcome, tau=cfg["tau"], limit_sigma=cfg["limit_sigma"]), ctx)
+        _cmp(plain, explicit, "omitted-vs-explicit" + (":tau0" if cfg["tau"] == 0 else ""), "rate(g) vs rate(g, tau=model.tau, limit_sigma=model.limit_sigma)")
 
     # the documented parameter ORDER: rate(teams, ranks, scores, tau, limit_sigma) and Model(mu, sigma, beta, kappa, gamma, tau, limit_sigma)
     # passed positionally mean the same as passed by keyword
     from vf.osk import GAMMAS, classes, mk_model, mk_teams, vals
 
-    if t is not None or b is not None:
+    if (t is not None or b is not None) and (t is not None or ok_model_tau):
         m_kw = mk_model(cfg)
         kw_res = vals(m_kw.rate(mk_teams(m_kw, teams), ranks=outcome.get("ranks"), scores=outcome.get("scores"), tau=t, limit_sigma=b))
         m_pos = mk_model(cfg)
@@ -44,7 +51,7 @@ def check_c15(case, ctx):
         _cmp(pos_res, kw_res, "positional-rate-arguments", f"rate(teams, ranks, scores, {t!r}, {b!r}) positionally vs by keyword")
     cls = classes()[cfg["kind"]]
     gfun = GAMMAS[cfg["gamma"]] if cfg.get("gamma", "default") != "default" else None
-    if gfun is not None:
+    if gfun is not None and plain is not None:
         m_posc = cls(cfg["mu"], cfg["sigma"], cfg["beta"], cfg["kappa"], gfun, cfg["tau"], cfg["limit_sigma"])
         posc = vals(m_posc.rate(mk_teams(m_posc, teams), **{k: v for k, v in outcome.items()}))
         ctx.called()
@@ -57,7 +64,7 @@ def check_c15(case, ctx):
         ctx.label("t:" + ("zero" if t == 0 else "tiny" if t < 1e-100 else "int" if isinstance(t, int) else "float"))
         _cmp(per_call, model_level, "tau:zero" if t == 0 else "tau:nonzero", f"Model(tau={cfg['tau']!r}).rate(g, tau={t!r}) vs Model(tau={t!r}).rate(g)")
         nt = nt or (t == 0 and cfg["tau"] != 0)
-    if b is not None:
+    if b is not None and ok_model_tau:
         per_call = rate_values(cfg, teams, dict(outcome, limit_sigma=b), ctx)
         model_level = rate_values(dict(cfg, limit_sigma=b), teams, outcome, ctx)
         ctx.label(f"b:{b}/model:{cfg['limit_sigma']}")
@@ -84,6 +91,15 @@ def cases(draw):
         st.sampled_from([0, 0.0, 0, 0.0, 1e-300, 1e-6 * beta, beta / 50.0, 2.0 * beta, 1, 2]),
         st.floats(0.0, 2.0).map(lambda u: u * beta)))
     g["b"] = draw(st.sampled_from([None, True, False, True, False]))
+    t_eff = g["t"] if g["t"] is not None else g["cfg"]["tau"]
+    if g["t"] is not None and t_eff >= 1e-6 * beta and draw(st.integers(0, 5)) == 0:
+        # sigma exactly 0 (an anchor / bot of known skill) is valid when the tau in force is > 0: one whole team, or single players
+        whole = draw(st.integers(0, len(g["teams"]) - 1))
+        for i, tm in enumerate(g["teams"]):
+            for p in tm:
+                if i == whole or draw(st.integers(0, 5)) == 0:
+                    p[1] = 0.0
+        g["meta"]["sigma0"] = True
     return g
 
 
